@@ -261,6 +261,13 @@ impl<'tcx> Cx<'tcx> {
             }
             _ => {}
         }
+        // pointer to a static?
+        if let ConstValue::Scalar(rustc_middle::mir::interpret::Scalar::Ptr(ptr, _)) = val {
+            let (prov, _off) = ptr.into_raw_parts();
+            if let rustc_middle::mir::interpret::GlobalAlloc::Static(sdid) = self.tcx.global_alloc(prov.alloc_id()) {
+                return J::O(vec![("static", s(did_id(self.tcx, sdid))), ("ty", s(tys))]);
+            }
+        }
         J::O(vec![("opaque", s(format!("{:?}", val))), ("ty", s(tys))])
     }
     fn fn_ref(&self, did: DefId, args: ty::GenericArgsRef<'tcx>) -> Vec<(&'static str, J)> {
